@@ -115,6 +115,8 @@ def to_model(case, obs):
                     evs.append("TLink %d %d (SetLinkMax %d)" % (a, b, act[3] * MS))
             elif name == "set_max":
                 evs.append("TLink 0 1 (SetGlobalMax %d)" % (act[1] * MS))
+            elif name in ("set_link_fail_rate", "set_curve"):
+                pass        # message-loss / distribution settings: no latency event in the model
             else:
                 evs.extend(link_events(name, act[1], act[2], n))
         evs.append("TTick %d" % tick)
@@ -504,6 +506,14 @@ def gen_latency_script(rng, nhosts=None):
             glob[1] = v
         if rng.random() < 0.2:
             ctl.append(["links"])
+        if rng.random() < 0.15:
+            # settings that are not latency settings: a per-link fail rate of 0 and the distribution
+            # parameter must leave every link's latency range (its own or the global one) as it is
+            if rng.random() < 0.6:
+                a, b = rng.sample(range(n), 2)
+                ctl.append(["set_link_fail_rate", rand_sel_or_set(rng, a, n, 0.3), rand_sel_or_set(rng, b, n, 0.3), 0.0])
+            else:
+                ctl.append(["set_curve", rng.choice([0.3, 1.0, 5.0, 20.0])])
         rand_sends(rng, n, ids, hosts, [0, 1, 2, 4, 6])
         if noops and rng.random() < 0.35:
             # calls that mean nothing on a healthy link (nothing is held, nothing is partitioned): no-ops
